@@ -166,3 +166,28 @@ def version_bump(vi: int, store_kind: int) -> bool:
 
 
 MUTANTS = {}
+
+
+STR_TURNS = [("0", 0), ("1", 1), ("2", 2), ("3", 3), ("6", 6), ("7", 7), ("10", 10), ("14", 14), ("21", 21), (" 9 ", 9), ("demo-1", 0), ("", 0)]
+
+
+@H.ob(model="none", quick=120, thorough=300,
+      targets=("clematis/engine/apply.py:_should_snapshot", "clematis/engine/apply.py:apply_changes"),
+      stubs=("apply.write_snapshot -> recorder",),
+      bounds="turn ids as the project's own drivers pass them: numeric strings, padded numeric strings and non-numeric ids (which count as turn 0) by symbolic index over 12; cadence by symbolic index over {1,2,3,7,10}",
+      note="C04.a snapshot cadence for string turn ids: a numeric string id snapshots exactly when its number is on the cadence; a non-numeric id counts as turn 0")
+def cadence_str(ti: int, ci: int) -> bool:
+    """
+    pre: 0 <= ti < len(STR_TURNS) and 0 <= ci < 5
+    post: _
+    """
+    n = CADENCES[ci]
+    tid, num = STR_TURNS[ti]
+    t4cfg = {"snapshot_every_n_turns": n, "snapshot_dir": "/nonexistent", "cache_bust_mode": "none"}
+    ctx = NS(turn_id=tid, agent_id="A", config=NS(t4=t4cfg), cfg=NS(t4=t4cfg))
+    state = {"store": RecStore(False, 0, 0), "version_etag": "4"}
+    t4 = T4Result(approved_deltas=_deltas(1), rejected_ops=[], reasons=[], metrics={})
+    res, snaps = _with_snapshot_recorder(lambda: AP.apply_changes(ctx, state, t4))
+    want = (num % n) == 0
+    ok = (len(snaps) == (1 if want else 0)) and ((res.snapshot_path == "SNAP") == want) and state["version_etag"] == "5"
+    return H.verdict(ok)
